@@ -1,7 +1,7 @@
 package main
 
 import (
-	"path/filepath"
+	"fmt"
 	"regexp"
 	"strings"
 	"unicode/utf8"
@@ -72,6 +72,21 @@ func worldCalls(w *check.World) []callRef {
 	return out
 }
 
+func standaloneFileOf(w *check.World, c callRef, path string) bool {
+	var cfg *scen.ConfigSpec
+	l := w.Lifetimes[c.life]
+	if c.call.Cfg >= 0 && c.call.Cfg < len(l.Configs) {
+		cfg = &l.Configs[c.call.Cfg]
+	}
+	pat := model.Locate(cfg, c.call.API, c.site, c.test).Path
+	for k := 1; k <= 40; k++ {
+		if fmt.Sprintf(pat, k) == path {
+			return true
+		}
+	}
+	return false
+}
+
 func hasLine(s, line string) bool {
 	for _, l := range strings.Split(s, "\n") {
 		if l == line {
@@ -129,6 +144,11 @@ func init() {
 			if c.file == f && headerLikeRE.MatchString(c.text) {
 				return true
 			}
+			// a standalone file whose raw value looks like an entry header is read as a
+			// multi-entry file by Clean
+			if c.file == "" && scen.Standalone(c.call.API) && headerLikeRE.MatchString(c.text) && standaloneFileOf(w, c, f) {
+				return true
+			}
 		}
 		for _, p := range w.Pre {
 			if p.Path == f {
@@ -137,40 +157,25 @@ func init() {
 		}
 		return false
 	}
-	// K3/K4: file-level protection exists only for default-named multi-entry
-	// files under -run, and only when no function declared in the test file
-	// matches the pattern. Every other unaddressed file of tests that did not
-	// run (standalone files, custom names, tests skipped through snaps.Skip*) is
-	// judged obsolete.
-	triggers["file-level-protection-gap"] = func(w *check.World, v *check.Violation) bool {
+	// K3: Clean has no way to tell which test owns an unused *standalone* file (the
+	// value is stored raw, the test name survives only in the file name, where '/'
+	// and '_' are indistinguishable): standalone files of tests that did not run
+	// (filtered out by -run, or skipped through snaps.Skip*) are listed obsolete and
+	// deleted in clean mode. Multi-entry files are judged by their entry headers and
+	// are not covered by this finding.
+	triggers["standalone-file-of-test-that-did-not-run"] = func(w *check.World, v *check.Violation) bool {
 		if !v.Has("C08") || (v.Oracle != "clean-listed-kept-file" && v.Oracle != "file-missing") {
 			return false
 		}
-		l := w.Lifetimes[v.Life]
-		base := filepath.Base(v.Item)
-		site := -1
-		for i, f := range scen.CallSites {
-			if base == strings.TrimSuffix(f, ".go")+".snap" {
-				site = i
+		for _, c := range worldCalls(w) {
+			if !scen.Standalone(c.call.API) {
+				continue
 			}
-		}
-		if site < 0 || l.Run == "" || filepath.Dir(filepath.Dir(v.Item)) != scen.NominalDir {
-			return true // (the library looks for the test source in the parent of the snapshot directory)
-		}
-		re, err := regexp.Compile(l.Run)
-		if err != nil {
-			return true
-		}
-		decls := append([]string{"init", "callSite" + string(rune('A'+site))}, scen.Pool[site]...)
-		if site == 0 {
-			decls = append(decls, "Test0Warm")
-		}
-		for _, d := range decls {
-			if re.MatchString(d) {
+			if standaloneFileOf(w, c, v.Item) {
 				return true
 			}
 		}
-		return false // here the library does protect the file: a violation is new
+		return false
 	}
 	// F5/K7: under -run the pattern is matched as one regexp against the whole
 	// id "name/sub - k" instead of level by level against the test name: an
